@@ -2048,3 +2048,167 @@ PROPS["C14"] = {
     "assumptions": ["cross-entropy is only used after softmax or sigmoid (positive outputs)"],
     "post": ["train_step"],
 }
+
+
+# ======================================================================================
+# C08 immutability: snapshots of every live handle around every step
+
+def gen_C08(tier, rng):
+    cases = []
+    count = 250 if tier == "quick" else 3000
+    for n in range(count):
+        exact = n % 2 == 0
+        h = History(rng, exact=exact, max_rank=rng.choice([2, 3]), track_p=0.8)
+        for _ in range(rng.randint(1, 3)):
+            h.leaf(h.rand_dims(), tracked=True if rng.random() < 0.7 else None)
+        snaps = []      # (instruction index, variable index, epoch)
+        epoch = {}
+        def snapshot():
+            for v in h.live_vars():
+                i = h.emit(("obs", v.idx))
+                snaps.append((i, v.idx, epoch.get(v.idx, 0)))
+        snapshot()
+        for _ in range(rng.randint(3, 10)):
+            x = rng.random()
+            ops = [v for v in h.live_vars() if v.is_op]
+            leaves = [v for v in h.live_vars() if v.leaf]
+            if x < 0.40 or not ops:
+                h.step()
+            elif x < 0.50:
+                h.clone(rng.choice(h.live_vars()))
+            elif x < 0.70:
+                root = rng.choice(ops)
+                h.emit(("backward", root.idx, h.seed_for(root)))
+            elif x < 0.78:
+                v = rng.choice(leaves)
+                # deposit a gradient on the leaf first so that the fetch certainly returns an array;
+                # the fetched gradient is a live handle from now on
+                h.emit(("backward", v.idx, h.seed_for(v, "int")))
+                i = h.emit(("fetchgrad", v.idx))
+                w = randprog.Var(i, v.dims, False, False, False, 0)
+                h.vars[i] = w
+            elif x < 0.84:
+                v = rng.choice(h.live_vars(lambda v: v.leaf or v.is_op))
+                h.emit((rng.choice(["cleargrad", "gradmutnone"]), v.idx))
+            elif x < 0.92 and leaves:
+                # optimizer update of some leaves: the handle is re-bound, older clones must stay intact
+                ps = [v for v in leaves if v.tracked and rng.random() < 0.7 and not getattr(v, "alias", False)]
+                if ps:
+                    for v in ps:
+                        if rng.random() < 0.5:
+                            h.clone(v)
+                    h.emit(("update", rng.choice([0.5, 0.25]), [v.idx for v in ps]))
+                    for v in ps:
+                        epoch[v.idx] = epoch.get(v.idx, 0) + 1
+            else:
+                cands = [v for v in ops if rng.random() < 0.5]
+                if cands:
+                    h.drop(cands[0])
+            snapshot()
+        c = case("snap", h.ins, "snapshots:%s" % ("exact" if exact else "float"),
+                 **({} if exact else {"rtol": 1e-7}))
+        c["snaps"] = snaps
+        c["lenient_missing"] = True
+        cases.append(c)
+    return cases
+
+
+def post_immutable(cases, rust, model):
+    """corgi against itself, bitwise: the dimensions and values seen through a handle never change"""
+    fails = []
+    n = 0
+    for i, (c, r) in enumerate(zip(cases, rust)):
+        if "snaps" not in c or r == ["timeout"]:
+            continue
+        first = {}
+        for (at, var, ep) in c["snaps"]:
+            if at >= len(r) or r[at] == "panic":
+                break
+            ob = r[at]
+            if not ob or ob[0][0] != 1:
+                continue
+            n += 1
+            key = (var, ep)
+            snap = (tuple(ob[0][1][1:]), tuple(repr(x) for x in ob[0][2]))
+            if key not in first:
+                first[key] = (snap, at)
+            elif first[key][0] != snap:
+                fails.append({"case": i, "confirmed": True,
+                              "reason": "variable %d showed dims/values %s at instruction %d and %s at instruction %d: "
+                                        "an existing array changed" % (var, first[key][0], first[key][1], snap, at)})
+                break
+    return fails, n
+
+
+POST["immutable"] = post_immutable
+
+PROPS["C08"] = {
+    "gen": gen_C08,
+    "rule": "seeded random histories over 1-3 leaves: 3-10 steps of operations (all kinds, including reshape views), "
+            "clones, backward passes, fetched gradients, gradient clears, optimizer updates of some leaves (with clones "
+            "of the old parameter kept alive) and drops; after every step a snapshot of the dimensions and values of "
+            "every live handle; adjudicated on corgi's output alone: all snapshots of one handle (between re-bindings) "
+            "are bitwise identical; also compared with the model; distinct = distinct program text",
+    "exhaustive": {"quick": False, "thorough": False},
+    "assumptions": ["mutation through unsafe code or FFI that no generated history exercises is only visible to the "
+                    "source audit reported in the evidence (informational)"],
+    "post": ["immutable"],
+    "audit": True,
+}
+
+
+# ======================================================================================
+# C19 single-precision build
+
+import struct
+
+
+def f32(x):
+    return struct.unpack("f", struct.pack("f", float(x)))[0]
+
+
+def round_case_f32(c):
+    ins = []
+    for x in c["instrs"]:
+        if x[0] == "leaf":
+            ins.append(("leaf", x[1], x[2], [f32(v) for v in x[3]]))
+        elif x[0] == "op" and x[1][0] in ("scale", "powf", "axpy"):
+            ins.append(("op", (x[1][0], f32(x[1][1])), x[2]))
+        elif x[0] == "backward" and x[2] is not None:
+            ins.append(("backward", x[1], (x[2][0], [f32(v) for v in x[2][1]])))
+        else:
+            ins.append(x)
+    c["instrs"] = ins
+    c.pop("dual", None)
+    c["rtol"] = 2e-4
+    c["scale_tol"] = True
+    return c
+
+
+def gen_C19(tier, rng):
+    cases = []
+    budget = {"C01": 500, "C02": 600, "C03": 150, "C04": 600, "C05": 400, "C06": 300, "C07": 150}
+    if tier == "thorough":
+        budget = {k: v * 8 for k, v in budget.items()}
+    for pid, n in sorted(budget.items()):
+        sub = PROPS[pid]["gen"]("quick" if tier == "quick" else "thorough", rng)
+        if len(sub) > n:
+            sub = rng.sample(sub, n)
+        for c in sub:
+            c["cls"] = "%s:%s" % (pid, c.get("cls", ""))
+            cases.append(round_case_f32(c))
+    return cases
+
+
+PROPS["C19"] = {
+    "gen": gen_C19,
+    "f32": True,
+    "rule": "samples of the C01-C07 programs (quick: 500/600/150/600/400/300/150; thorough: 8x) with every input "
+            "rounded to binary32, run against the harness built with --features f32 and compared with the binary64 "
+            "model: dimensions, tracking flags and panics exactly (integer-valued programs stay exact below 2^22), "
+            "values within 2e-4 * max(1, largest magnitude in the case); distinct = distinct program text",
+    "exhaustive": {"quick": False, "thorough": False},
+    "assumptions": ["closeness to the double-precision reference is validated by this differential run, not proved "
+                    "(a per-program floating-point error analysis is out of reach); the proved part is that shapes, "
+                    "tracking and acceptance do not depend on the scalar type (Proofs/ShapeParametric.v)"],
+}
